@@ -24,6 +24,7 @@ inductive Op where
   | sEnd (n : Node)           -- eX.n
   | view (n k : Node)         -- L.n.k
   | kill (n : Node)           -- K.n
+  | cancelHeld (n : Node)     -- xX.n: the context of the HELD call (the flight's winner) is cancelled
   | follow (n : Node)         -- fX.n: a call that joins the flight held open on its executing node
   | cancel (n : Node)         -- cX.n: the follower's context is cancelled
   | join (n : Node)           -- jX.n: the follower's result after the flight ended
@@ -31,7 +32,7 @@ inductive Op where
   deriving Repr, DecidableEq
 
 inductive Out where
-  | ok (owner : Node) | pre (exec : Node) | done | busy | none | nf | eloop | badOp | wait | cancelled
+  | ok (owner : Node) | pre (exec : Node) | done | busy | none | nf | eloop | badOp | wait | cancelled | failed | retry
   deriving Repr, DecidableEq
 
 /-- registry log entries: node, operation -/
@@ -45,13 +46,16 @@ structure St where
   live : List Bool             -- live[m] = an instance of the singleton runs on node m (and is in m's tree)
   held : List (Node × Node)    -- spawns held inside PreStart: (calling node, executing node)
   fol : List (Node × Node)     -- followers of a flight: (calling node, executing node); they share the leader's result
+  gaveUp : List Node           -- callers whose HELD call had its context cancelled (the spawn is still inside PreStart)
+  retrying : List Node         -- callers whose held entry now stands for their followers' retry (held in ITS PreStart)
+  shared : List (Node × Out)   -- per executing node: the result the followers of its last flight share
   maxLive : Nat
   started : Nat
   log : List Ev                -- reversed
   deriving Repr, DecidableEq
 
 def St.init (nn : Nat) (leader : Node := 0) : St :=
-  { views := List.replicate nn leader, reg := none, live := List.replicate nn false, held := [], fol := [], maxLive := 0, started := 0, log := [] }
+  { views := List.replicate nn leader, reg := none, live := List.replicate nn false, held := [], fol := [], gaveUp := [], retrying := [], shared := [], maxLive := 0, started := 0, log := [] }
 
 def nn (s : St) : Nat := s.views.length
 
@@ -99,6 +103,13 @@ def localEnd (s : St) (m : Node) : St :=
 def heldBy (s : St) (n : Node) : Bool := s.held.any (·.1 = n)
 def heldOn (s : St) (m : Node) : Bool := s.held.any (·.2 = m)
 def folBy (s : St) (n : Node) : Bool := s.fol.any (·.1 = n)
+/-- some follower waits behind the flight of node `m` -/
+def heldOnFol (s : St) (m : Node) : Bool := s.fol.any (·.2 = m)
+
+def sharedOf (s : St) (m : Node) : Out :=
+  match s.shared.find? (·.1 = m) with
+  | some (_, o) => o
+  | none => .ok m
 
 def step (s : St) : Op → St × Out
   | .view n k =>
@@ -131,8 +142,36 @@ def step (s : St) : Op → St × Out
     if !(n < nn s) then (s, .badOp)
     else
       match s.held.find? (·.1 = n) with
-      | some (_, m) => (localEnd { s with held := s.held.filter (·.1 ≠ n) } m, .ok m)
+      | some (_, m) =>
+        let s0 := { s with held := s.held.filter (·.1 ≠ n) }
+        if s.retrying.contains n then
+          -- second release: the followers' retry leaves PreStart, runs and publishes
+          let s1 := localEnd { s0 with retrying := s0.retrying.filter (· ≠ n) } m
+          ({ s1 with shared := (m, .ok m) :: s1.shared.filter (·.1 ≠ m) }, .done)
+        else if s.gaveUp.contains n then
+          -- PreStart honours its context: initialisation fails, no instance; the flight ends with the winner's
+          -- context error; its followers (healthy contexts) retry ONCE, coalesced on one new execution
+          let s1 := { s0 with gaveUp := s0.gaveUp.filter (· ≠ n) }
+          if heldOnFol s m then
+            match s1.reg with
+            | some o =>
+              -- the name was published meanwhile: one precondition read, then every follower reads the record
+              let k := (s.fol.filter (·.2 = m)).length
+              ({ s1 with log := List.replicate (k + 1) (.getHit m) ++ s1.log,
+                         shared := (m, .ok (if liveAt s1 m then m else o)) :: s1.shared.filter (·.1 ≠ m) }, .failed)
+            | none =>
+              -- (a node whose tree already holds a live instance cannot have an open flight: not reachable)
+              -- the retry is held inside its own PreStart: the flight of node m stays open, led by the followers
+              ({ s1 with held := s.held, retrying := n :: s1.retrying, log := .getMiss m :: s1.log }, .retry)
+          else (s1, .failed)
+        else
+          let s1 := localEnd s0 m
+          ({ s1 with shared := (m, .ok m) :: s1.shared.filter (·.1 ≠ m) }, .ok m)
       | none => (s, .none)
+  | .cancelHeld n =>
+    if !(n < nn s) then (s, .badOp)
+    else if heldBy s n && !s.gaveUp.contains n && !s.retrying.contains n then ({ s with gaveUp := n :: s.gaveUp }, .cancelled)
+    else (s, .none)
   | .kill n =>
     if !(n < nn s) then (s, .badOp)
     else if liveAt s n then
@@ -156,7 +195,7 @@ def step (s : St) : Op → St × Out
       match s.fol.find? (·.1 = n) with
       | some (_, m) =>
         -- still parked behind the flight: the context error; already served: the shared result
-        ({ s with fol := s.fol.filter (·.1 ≠ n) }, if heldOn s m then .cancelled else .ok m)
+        ({ s with fol := s.fol.filter (·.1 ≠ n) }, if heldOn s m then .cancelled else sharedOf s m)
       | none => (s, .none)
   | .join n =>
     if !(n < nn s) then (s, .badOp)
@@ -164,7 +203,7 @@ def step (s : St) : Op → St × Out
       match s.fol.find? (·.1 = n) with
       | some (_, m) =>
         if heldOn s m then (s, .busy)
-        else ({ s with fol := s.fol.filter (·.1 ≠ n) }, .ok m)     -- the leader's result, shared
+        else ({ s with fol := s.fol.filter (·.1 ≠ n) }, sharedOf s m)     -- the flight's result, shared
       | none => (s, .none)
   | .bad => (s, .badOp)
 
